@@ -39,12 +39,13 @@ def confirm(mid, name, flags=""):
 
 def run(name, ids):
     d = os.path.join(ROOT, "seeded", name)
-    rc, o = sh(f"git -C /repo status --porcelain")
+    REPO = os.environ.get("VERIF_REPO", "/repo")
+    rc, o = sh(f"git -C {REPO} status --porcelain")
     if o.strip():
-        print("refusing: /repo is dirty"); return
-    rc, o = sh(f"git -C /repo apply {d}/patch.diff")
+        print(f"refusing: {REPO} is dirty"); return
+    rc, o = sh(f"git apply {d}/patch.diff", REPO)
     if rc != 0:
-        print("patch does not apply to /repo:", o); return
+        print(f"patch does not apply to {REPO}:", o); return
     results = {}
     import shutil, tempfile
     keep = tempfile.mkdtemp(prefix="evidence-keep-")
@@ -60,7 +61,10 @@ def run(name, ids):
                 if m and os.path.exists(m.group(1)):
                     results[pid]["replay_head"] = open(m.group(1)).read()[:1500]
     finally:
-        sh("git -C /repo checkout -- .")
+        sh(f"git apply -R {d}/patch.diff", REPO)
+        rc, o = sh(f"git -C {REPO} status --porcelain")
+        if o.strip():
+            print(f"WARNING: {REPO} not clean after undoing {name}:", o)
         # the evidence files describe runs on the unchanged tree only: put them back
         shutil.rmtree(os.path.join(ROOT, "evidence"), ignore_errors=True)
         shutil.copytree(os.path.join(keep, "evidence"), os.path.join(ROOT, "evidence"))
